@@ -100,6 +100,9 @@ def check(chk, fx):
     # what is skipped silently before a term is looked for (a NUL or any non-space byte must be reported, not skipped)
     from . import c04
     c04.ws(chk, fx)
+    # positions and extents are computed in integers that must not wrap (lexeme lengths, line / column)
+    from .. import width
+    width.check(chk, fx, classes=("LEN", "LINECOL"), minimum=10)
 
 
 def rep3(chk, fx, table, site):
